@@ -139,3 +139,45 @@ package btree
 //@   ensures #content len(result.items) == old(len(n.children[i].items)) && (forall j int :: { result.items[j] } 0 <= j && j < len(result.items) ==> result.items[j] == old(n.children[i].items[j])) && len(result.children) == old(len(n.children[i].children)) && (forall j int :: { result.children[j] } 0 <= j && j < len(result.children) ==> result.children[j] == old(n.children[i].children[j]))
 //@   ensures #others len(n.children) == old(len(n.children)) && (forall j int :: { n.children[j] } 0 <= j && j < len(n.children) && j != i ==> n.children[j] == old(n.children[j])) && n.items == old(n.items) && n.cow == old(n.cow)
 //@   modifies region($alloc), n.children[i:i+1]
+//
+// ---- lookups over whole subtrees (recursive code, modular proof) ----
+// Abstract view: every node n carries the ghost set n.gk of the keys (kid classes) stored in its subtree and, for each
+// such key, a witness n.gw telling where it is: index j >= 0 of the node's own item, or -(c+1) for child c. nodeok(n)
+// is the ONE-LEVEL consistency of that view with the node's items and its children's views: items sorted, an internal
+// node has one more child than items, child c holds only keys strictly between the items around it, every item key
+// and every child key is in gk, and every key in gk has a valid witness; a child is never empty (part of the occupancy bound). A tree is well formed when every allocated
+// node is nodeok (treeok): this is what the lookups REQUIRE; that the mutating operations re-establish it is not proved
+// (bounded stand-in), so the lookups are proved correct relative to this invariant.
+//@ ghostfield node.gk [0]bool
+//@ ghostfield node.gw [0]int
+//@ pure nodeok(n *node) bool = shape(n) && sorted(n.items) && (forall j int :: { n.items[j] } 0 <= j && j < len(n.items) ==> n.gk[kid(n.items[j])]) && (forall c int :: { n.children[c] } 0 <= c && c < len(n.children) ==> n.children[c] != nil && allocated(n.children[c]) && len(n.children[c].items) >= 1) && (forall c int, k int :: { n.children[c].gk[k] } 0 <= c && c < len(n.children) && n.children[c].gk[k] ==> n.gk[k] && (c == 0 || kid(n.items[c-1]) < k) && (c == len(n.items) || k < kid(n.items[c]))) && (forall k int :: { n.gk[k] } n.gk[k] ==> (0 <= n.gw[k] && n.gw[k] < len(n.items) && kid(n.items[n.gw[k]]) == k) || (n.gw[k] < 0 && -n.gw[k]-1 < len(n.children) && n.children[-n.gw[k]-1].gk[k]))
+//@ pure treeok() bool = forall m *node :: { nodeok(m) } m != nil && allocated(m) ==> nodeok(m)
+//
+// get: the item with the key's class if the subtree holds one, nil otherwise
+//@ func node.get
+//@   requires n != nil && allocated(n) && treeok() && key != nil
+//@   ensures #found result != nil <==> n.gk[kid(key)]
+//@   ensures #same result != nil ==> kid(result) == kid(key)
+//@   modifies
+//
+// min / max: the item with the least (greatest) key of the subtree, nil exactly for an empty one
+//@ func min
+//@   requires treeok() && (n == nil || allocated(n))
+//@   ensures #empty result == nil ==> old(n) == nil || forall k int :: { old(n).gk[k] } !old(n).gk[k]
+//@   ensures #member result != nil ==> old(n) != nil && old(n).gk[kid(result)]
+//@   ensures #least result != nil ==> forall k int :: { old(n).gk[k] } old(n).gk[k] ==> kid(result) <= k
+//@   modifies
+//@   loop 1
+//@     invariant n != nil && allocated(n) && old(n) != nil && (n != old(n) ==> len(n.items) >= 1)
+//@     invariant #subset forall k int :: { n.gk[k] } n.gk[k] ==> old(n).gk[k]
+//@     invariant #rest forall k1 int, k2 int :: { old(n).gk[k1], n.gk[k2] } old(n).gk[k1] && !n.gk[k1] && n.gk[k2] ==> k2 < k1
+//@ func max
+//@   requires treeok() && (n == nil || allocated(n))
+//@   ensures #empty result == nil ==> old(n) == nil || forall k int :: { old(n).gk[k] } !old(n).gk[k]
+//@   ensures #member result != nil ==> old(n) != nil && old(n).gk[kid(result)]
+//@   ensures #greatest result != nil ==> forall k int :: { old(n).gk[k] } old(n).gk[k] ==> k <= kid(result)
+//@   modifies
+//@   loop 1
+//@     invariant n != nil && allocated(n) && old(n) != nil && (n != old(n) ==> len(n.items) >= 1)
+//@     invariant #subset forall k int :: { n.gk[k] } n.gk[k] ==> old(n).gk[k]
+//@     invariant #rest forall k1 int, k2 int :: { old(n).gk[k1], n.gk[k2] } old(n).gk[k1] && !n.gk[k1] && n.gk[k2] ==> k1 < k2
